@@ -10,6 +10,7 @@ import (
 	"path/filepath"
 	"regexp"
 	"strconv"
+	"strings"
 
 	"github.com/reedom/convergen/pkg/builder"
 	"github.com/reedom/convergen/pkg/builder/model"
@@ -182,6 +183,45 @@ func (p *Parser) CreateBuilder() *builder.FunctionBuilder {
 	return builder.NewFunctionBuilder(p.file, p.fset, p.pkg, p.imports)
 }
 
+// importBlankByName adds a named import for each blank import whose package
+// declares another name than the last element of its path. goimports finds the
+// package behind a blank import by that element only, so the functions that
+// notations refer to would stay unresolved. It drops the import again if unused.
+func (p *Parser) importBlankByName() {
+	last := -1
+	for i, decl := range p.file.Decls {
+		if d, ok := decl.(*ast.GenDecl); ok && d.Tok == token.IMPORT {
+			last = i
+		}
+	}
+
+	var decls []ast.Decl
+	for _, spec := range p.file.Imports {
+		if spec.Name == nil || spec.Name.Name != "_" {
+			continue
+		}
+		pkgPath, err := strconv.Unquote(spec.Path.Value)
+		if err != nil {
+			continue
+		}
+		name, ok := p.imports.LookupName(pkgPath)
+		if !ok || name == "_" || name == pkgPath[strings.LastIndex(pkgPath, "/")+1:] {
+			continue
+		}
+		decls = append(decls, &ast.GenDecl{
+			Tok: token.IMPORT,
+			Specs: []ast.Spec{&ast.ImportSpec{
+				Name: ast.NewIdent(name),
+				Path: &ast.BasicLit{Kind: token.STRING, Value: spec.Path.Value},
+			}},
+		})
+	}
+	if last < 0 || len(decls) == 0 {
+		return
+	}
+	p.file.Decls = append(p.file.Decls[:last+1], append(decls, p.file.Decls[last+1:]...)...)
+}
+
 // GenerateBaseCode generates the base code without convergen annotations.
 // The code is stripped of convergen annotations and the doc comments of interfaces.
 // The resulting code can be used as a starting point for the code generation process.
@@ -241,6 +281,8 @@ func (p *Parser) GenerateBaseCode() (code string, err error) {
 		util.InsertComment(p.file, entry.marker, maxPos)
 		util.InsertComment(p.file, entry.marker, minPos)
 	}
+
+	p.importBlankByName()
 
 	var buf bytes.Buffer
 	err = printer.Fprint(&buf, p.fset, p.file)
